@@ -470,11 +470,17 @@ def execute(sim, plan):
         with basis.lock_read():
             basis_texts = {basis.get_file_text(q) for q, e in basis.iter_entries_by_dir() if e.kind == "file"}
         ids = {}
+        basis_path = {}
         for q in files_of(root):
             try:
                 ids[q] = w.path2id(q)
             except errors.BzrError:
                 ids[q] = None
+            if ids[q] is not None:
+                try:
+                    basis_path[q] = basis.id2path(ids[q])
+                except Exception:  # noqa: BLE001 - NoSuchId (not a BzrError): not in the basis
+                    pass
     before = files_of(root, stat=(c == "uncommit"))
     plain_before = {q: (v[0] if c == "uncommit" else v) for q, v in before.items()}
     U = {q: d for q, d in plain_before.items() if d not in basis_texts and d not in merge_written}
@@ -546,7 +552,8 @@ def execute(sim, plan):
     selection = cmd.get("paths")
 
     def selected(q):
-        return selection is None or any(T.inside(s, q) for s in selection)
+        # a path selects the file that has it now and the file that had it in the basis
+        return selection is None or any(T.inside(s, q) or (q in basis_path and T.inside(s, basis_path[q])) for s in selection)
 
     if raised is not None:
         sim.probe("refused_" + type(raised).__name__)
